@@ -411,6 +411,14 @@ def render_scoped(case, off=frozenset()):
     if where == 1:
         L.append("    };")
     L += ["  }", "}", "__begin_publish", "%s *make_w();" % scope, "__end_publish"]
+    # class templates whose default arguments depend on earlier (possibly defaulted) parameters, exported through typedefs
+    L += ["template<class A, class B = A, class C = B *> struct Tri {", "__published:", "  C get_c() const;", "  B get_b(A a, C *pc);", "  A a; B b; C c;", "};",
+          "template<class T, int R = 2, int C2 = R + 1> struct Grid {", "__published:", "  typedef T Row[C2];", "  typedef T Col[R];", "  Row *rows();", "  int n(Col &a) const;", "  T cells[R][C2];", "};",
+          "__begin_publish"]
+    tds = ["typedef Tri<char> TriC;", "typedef Tri<Tag, long> TriTL;", "typedef Tri<int, Z *, const Tag *> TriF;", "typedef Grid<short> GridS;", "typedef Grid<Tag, 4> GridT4;",
+           "typedef Grid<long, 1, 7> GridL;"]
+    L += [t for i, t in enumerate(tds) if f[i % len(f)] or i == case["where"]] or tds[:1]
+    L += ["__end_publish"]
     return "\n".join(x for x in L if x) + "\n", scope, meths
 
 
@@ -437,11 +445,24 @@ def judge_scoped(case, ctx):
             if proto.count(key) != 1 or "\n" in proto:
                 continue
             checks.append((fn["name"], proto.replace(key, "(%s::*)(" % scope)))
-        if len(checks) != len(meths):
+        n_w = len(checks)
+        for fn in db["functions"]:
+            sc = fn["scoped_name"].rsplit("::", 1)[0]
+            if sc.startswith(("Tri<", "Grid<")) and fn["name"] in ("get_c", "get_b", "rows", "n"):
+                proto = fn["prototype"].strip().rstrip(";")
+                key = "%s::%s(" % (sc, fn["name"])
+                if proto.count(key) == 1 and "\n" not in proto:
+                    checks.append(("%s::%s" % (sc, fn["name"]), proto.replace(key, "(%s::*)(" % sc), sc))
+        if n_w != len(meths):
             return Outcome(ok=False, key="scoped-missing", detail="%d published methods of %s, %d in the database\n%s" % (len(meths), scope, len(checks), src))
         tu = ['#define __published public', '#define __begin_publish', '#define __end_publish', '#include "l.h"', '#include <type_traits>']
-        for name, sig in checks:
-            tu.append('static_assert(std::is_same<decltype(&%s::%s), %s>::value, "%s");' % (scope, name, sig, name))
+        for chk in checks:
+            name, sig = chk[0], chk[1]
+            sc = chk[2] if len(chk) > 2 else None
+            if sc is None:
+                tu.append('static_assert(std::is_same<decltype(&%s::%s), %s>::value, "%s");' % (scope, name, sig, name))
+            else:
+                tu.append('static_assert(std::is_same<decltype(&%s), %s>::value, "template member");' % (name, sig))
         run.write(os.path.join(d, "chk.cxx"), "\n".join(tu) + "\n")
         g = igate.gxx(d, ["-fsyntax-only", "chk.cxx"])
         if g.rc != 0:
@@ -452,7 +473,7 @@ def judge_scoped(case, ctx):
                            detail="the types interrogate records for a method do not denote the declared ones:\n  %s\n%s\nsource:\n%s" % (line, "\n".join(l for l in err.splitlines() if "error" in l)[:400], src))
     feats = tuple(i for i, x in enumerate(case["flags"]) if x)
     return Outcome(ok=True, nontrivial=["scoped|%s|%d|%s" % (feats, case["where"], sorted({n for m in case["meths"] for n in m}))], classes=["scoped", "scoped.where%d" % case["where"]],
-                   sample={"scope": scope, "declared": [l.strip() for l in src.splitlines() if "f0(" in l or "f1(" in l][:2], "recorded": [c[1] for c in checks[:2]]})
+                   sample={"scope": scope, "declared": [l.strip() for l in src.splitlines() if "f0(" in l or "f1(" in l][:2], "recorded": [c[1] for c in checks[:2]], "template_members_checked": len(checks) - n_w})
 
 
 def _decl_text(ents):
